@@ -493,7 +493,7 @@ def rule_range_safety(ctx: Ctx, rule: str) -> None:
            f'{n_rows} rows agree' if ok else (sorted(set(bad))[0] if bad else f'{n_rows} rows'), witness="fnmatch('b', '[a-c]') True; '[c-a]' matches nothing and compiles; `<=` would drop the legal one-character range [a-a]")
     from . import seqrules
     seqrules.rule_sequence_epilogue(ctx, rule, which={'empty-class-replacements'})
-    seqrules.rule_scan_loops(ctx, rule, which={'range-end-cleared-by-posix'})
+    seqrules.rule_scan_loops(ctx, rule, which={'range-end-cleared-by-posix', 'range-end-cleared-by-check'})
     ar, ur = repo.const(WP, 'ASCII_RANGE'), repo.const(WP, 'UNICODE_RANGE')
     pa = rx.parse('[' + ar + ']')
     pu = rx.parse('[' + ur + ']')
